@@ -7,6 +7,7 @@
 -/
 import Gzx.Proofs.OneD
 import Gzx.Proofs.UpceanWrite
+import Gzx.Proofs.OneDCodabar
 import Gzx.Properties.C10
 set_option linter.unusedSimpArgs false
 namespace Gzx.Properties.C03
@@ -614,6 +615,28 @@ theorem code128_forced_inv (f : Nat) (hf : f = 99 ∨ f = 100 ∨ f = 101) (cont
             rw [List.take_left']
             simp
 
+/-! ### Codabar -/
+
+/-- Clause "Codabar … reads back", module layer: for every table of twenty pairwise distinct 7-bit words, the module
+    pattern drawn for the alphabet indices `idx` (start, data…, stop; 7 elements narrow = 1 / wide = 2 modules and a
+    narrow gap between characters) is split back into exactly these indices and then judged by the reader's guard and
+    length rules. -/
+theorem codabar_ideal_decode_encode (T : Tables) (hT : WFCodabar T = true) (idx : List Nat)
+    (hidx : ∀ i ∈ idx, i < 20) (hne : idx ≠ []) :
+    codabarIdeal T (codabarDraw (idx.map (fun i => T.codabarEnc.getD i 0))) = codabarReadSymbols T idx :=
+  codabar_ideal_core T hT idx hidx hne
+
+/-- Clause "Codabar: digits and - $ : / . + between start/stop characters A-D (also written T N * E or in lower case;
+    A…A is added when the content has no guards) … read(write(c)) == c without the guards": for every table of twenty
+    pairwise distinct 7-bit words over the standard alphabet, every content the writer accepts (`codabarFull contents
+    = ok full`, `full` = the characters drawn incl. guards) with at least two data characters (the reader refuses
+    shorter symbols) is drawn as a module pattern that the module-level reader returns as exactly the data characters
+    between the guards. -/
+theorem codabar_read_write (T : Tables) (hT : WFCodabar T = true) (hA : T.codabarAlphabet = refTables.codabarAlphabet)
+    (contents full : List Nat) (h : codabarFull contents = .ok full) (hlen : full.length > 3) :
+    ∃ mods, codabarModules T contents = .ok mods ∧ codabarIdeal T mods = .ok ((full.drop 1).dropLast) :=
+  codabar_read_write_core T hT hA contents full h hlen
+
 /-! ### the UPC/EAN row decoder returns only verified numbers -/
 
 /-- Clause (C10) "Readers never return a symbol whose check characters do not verify", on the row-decoder model:
@@ -735,6 +758,9 @@ example : writerContents .upce (digitBytes [0, 1, 2, 3, 4, 5, 6]) = .ok (digitBy
 example : (ean8Modules refTables (digitBytes [1, 2, 3, 4, 5, 6, 7])).bind
     (fun m => decodeRow refTables .ean8 (paddedRow 9 3 10 m)) = .ok (digitBytes [1, 2, 3, 4, 5, 6, 7, 0]) := by decide +kernel
 example : WFITF refTables = true := by decide
+example : WFCodabar refTables = true := by decide
+example : codabarFull (bytesOf "12-34") = .ok (bytesOf "A12-34A") ∧ codabarFull (bytesOf "t12*") = .ok (bytesOf "t12*") := by decide
+example : (codabarModules refTables (bytesOf "t12*")).bind (codabarIdeal refTables) = .ok (bytesOf "12") := by decide +kernel
 example : code128Codes [65, 49, 50, 51, 52, 97] none = .ok [104, 33, 99, 12, 34, 100, 65, 58, 106] := by decide +kernel
 example : code128ReadCodes [104, 33, 99, 12, 34, 100, 65, 58, 106] = .ok [65, 49, 50, 51, 52, 97] := by decide +kernel
 example : code39Symbols refTables [65, 97] = .ok [10, 41, 10] := by decide
